@@ -153,41 +153,66 @@ def seeds(tier):
                 d = open(p, "rb").read()
                 fmt, F, cuts = M.analyse(d)
                 if fmt != "raw" or "corpus" in p:
-                    out.append((p, d, fmt, F, sorted(set(c for c in cuts if 0 <= c <= len(d)))))
+                    out.append((p, d, fmt, F, sorted(set(c for c in cuts if 0 <= c <= len(d))), M.anchors(d)))
     return out
 
 
 def gen_fuzz_cases(r, tier, sds):
+    """-> (case lines, {id: (format, mutation kind)})"""
     cases, meta = [], {}
     per_fmt = collections.defaultdict(list)
     for s in sds:
         per_fmt[s[2]].append(s)
-    n = 1400 if tier == "quick" else 40000
-    i = 0
-    for s in sds:                                   # every seed unmodified once: the baseline must be clean
-        cid = "f%d" % i; i += 1
-        cases.append("%s %s N" % (cid, s[0])); meta[cid] = (s[2], "seed")
+    quick = tier == "quick"
+    cnt = [0]
+
+    def add(path, ops, fmt, kind):
+        cid = "f%d" % cnt[0]; cnt[0] += 1
+        cases.append("%s %s %s" % (cid, path, ops)); meta[cid] = (fmt, kind)
+
+    for s in sds:                                   # (a) every seed unmodified once: the baseline must be clean
+        add(s[0], "N", s[2], "seed")
     fmts = sorted(per_fmt)
-    # systematic: truncation at every structure boundary of one seed per format
+    # (b) directed: every class of header field, pointer-like ones aimed at the end of the file, counts made huge
+    for fmt in fmts:
+        classes = collections.defaultdict(list)
+        for s in per_fmt[fmt]:
+            for fld in s[3]:
+                if 0 <= fld[0] and fld[0] + fld[1] <= len(s[1]):
+                    classes[M.klass(fld[3])].append((s, fld))
+        for kl in sorted(classes):
+            inst = classes[kl]
+            k = min(12, 3 + len(inst) // 8) * (1 if quick else 12)
+            for _ in range(k):
+                s, (off, w, en, lab) = r.choice(inst)
+                cur = int.from_bytes(s[1][off:off + w], "little" if en == "<" else "big")
+                v = M.directed_value(r, lab, cur, w, len(s[1]), s[5])
+                ops = "%s%d:%d:%x" % ("W" if en == "<" else "B", off, w, v)
+                if r.random() < 0.25:               # a second field of the same seed (two sites that are each fine alone)
+                    off2, w2, en2, lab2 = r.choice(s[3])
+                    if 0 <= off2 and off2 + w2 <= len(s[1]):
+                        cur2 = int.from_bytes(s[1][off2:off2 + w2], "little" if en2 == "<" else "big")
+                        ops += ",%s%d:%d:%x" % ("W" if en2 == "<" else "B", off2, w2, M.directed_value(r, lab2, cur2, w2, len(s[1]), s[5]))
+                add(s[0], ops, fmt, "directed:" + kl.split(".")[0].split("/")[-1].split("[")[0][:12])
+    # (c) truncation at every structure boundary of every seed (all deltas for the smallest seed of each format)
     for fmt in fmts:
         small = min(per_fmt[fmt], key=lambda s: len(s[1]))
-        for c in small[4][:: max(1, len(small[4]) // (12 if tier == "quick" else 200))]:
-            for dlt in (-1, 0, 1):
-                cid = "f%d" % i; i += 1
-                cases.append("%s %s T%d" % (cid, small[0], max(0, c + dlt))); meta[cid] = (fmt, "trunc@every-boundary")
-    while i < n:
+        for s in per_fmt[fmt]:
+            for c in s[4]:
+                for dlt in ((-1, 0, 1, 7, 39) if (s is small or not quick) else (r.choice([0, 1, 1, 7, 19, 39]),)):
+                    add(s[0], "T%d" % max(0, min(len(s[1]), c + dlt)), fmt, "trunc@boundary")
+    # (d) random mix
+    for _ in range(900 if quick else 40000):
         fmt = r.choice(fmts)
         cand = per_fmt[fmt]
-        # bias to small seeds (cost) but keep all reachable
         s = r.choice(sorted(cand, key=lambda s: len(s[1]))[: max(1, (len(cand) + 1) // 2)]) if r.random() < 0.7 else r.choice(cand)
         ops, kind = M.mutate(r, s[1], s[3], s[4])
-        cid = "f%d" % i; i += 1
-        cases.append("%s %s %s" % (cid, s[0], ops)); meta[cid] = (fmt, kind.split(":")[0] if not kind.startswith("field") else kind)
-    for k in range(40 if tier == "quick" else 2000):  # random data, with and without a magic
-        cid = "f%d" % i; i += 1
+        add(s[0], ops, fmt, "mix:" + (kind.split(":")[0] if not kind.startswith("field") else "field"))
+    for k in range(40 if quick else 2000):            # (e) random data, with and without a magic
         ln = r.choice([0, 1, 2, 3, 4, 63, 64, 100, 1000, 4096, 70000])
-        magic = r.choice(["", "X0:4d5a", "X0:7f454c4602", "X0:7f454c4601", "X0:cafebabe", "X0:feedface", "X0:cffaedfe", "X0:6465780a30333500", "X0:4d5a,W60:4:40,X64:50450000"])
-        cases.append("%s - Z%d:%d%s" % (cid, ln, r.getrandbits(30), "," + magic if magic else "")); meta[cid] = ("random", "random")
+        magic = r.choice(["", "", "X0:4d5a", "X0:7f454c4602", "X0:7f454c4601", "X0:cafebabe", "X0:feedface", "X0:cffaedfe", "X0:6465780a30333500",
+                          "X0:4d5a,W60:4:40,X64:50450000", "X0:4d5a,W60:4:40,X64:50450000", "X0:6465780a30333500"])
+        add("-", "Z%d:%d%s" % (ln, r.getrandbits(30), "," + magic if magic else ""), "random", "random")
     return cases, meta
 
 
@@ -412,7 +437,7 @@ def run(tier, replay=None):
         "distinct_nontrivial": len(nontrivial) + sum(v for k, v in stats.items() if k.startswith("pred_true:")),
         "rule": "function level: boundary-biased 64-bit tuples, non-trivial = accepted by the predicate; runtime: mutated inputs on which a module parser still "
                 "defines > 520 fields (459 are constants defined on any input), i.e. the mutation went through the parser rather than being rejected at the magic",
-        "samples": [fcases[len(sds) + 5] if len(fcases) > len(sds) + 5 else None, pcases[1] if len(pcases) > 1 else None],
+        "samples": [fcases[len(sds) + 5] if len(fcases) > len(sds) + 5 else None, fcases[-50] if len(fcases) > 50 else None, pcases[1] if len(pcases) > 1 else None],
         "translator_status": status["status"], "bounds_call_sites": status["call_sites"],
         "function_level": {k: v for k, v in sorted(stats.items()) if k.startswith(("pred", "rva", "unsound"))},
         "runtime": {"cases": len(fcases) if do_fuzz else 0, "seeds": len(sds), "by_format": dict(fmt_hist), "by_mutation": dict(hist),
